@@ -50,7 +50,7 @@ func CasesFor(id ecc.ID, quick bool, cases []Case, n int) []Case {
 	if !quick || id == ecc.BN254 {
 		return cases
 	}
-	pref := []string{"commit-two", "cubic-1pub", "zero-pub", "commit-public", "two-pub"}
+	pref := []string{"commit-three", "commit-two", "cubic-1pub", "zero-pub", "commit-public", "two-pub"}
 	var out []Case
 	for _, name := range pref {
 		for _, c := range cases {
